@@ -69,6 +69,12 @@ class FakeUdpSocket:
         self.node.syscall('recvfrom')
         if not self.queue:
             self.node.blocked_forever('recvfrom() on a socket that is not readable')
+        if self.node.recv_fail['udp']:
+            # a pending socket error (ICMP port unreachable after an earlier send...) is reported before the queued datagram, which stays
+            f = self.node.recv_fail['udp'].pop(0)
+            self.node.world.count_fault('sys.recvfrom')
+            self.node.world.record(('recvfail', self.node.name, 'udp'))
+            raise f()
         data, src = self.queue.pop(0)
         return data[:n], src
 
@@ -206,6 +212,7 @@ class Node:
         self.syscalls = 0
         self.syscall_log = None
         self.sendto_fail = {}        # ordinal of sendto call -> exception factory
+        self.recv_fail = {'udp': [], 'nl': []}     # pending receive errors (exception factories), consumed by the next readable receive
         self.sendto_no = 0
         self.stalled_until = 0.0
         self.tick_gen = 0
